@@ -43,7 +43,9 @@ func init() {
 			"(sequence) one caller making 8-16 calls with values it keeps: one image buffer refilled in place (same and other length), one LaunchOptions value whose fields are changed between calls in every order, one bank slice refilled in place / handed in again / nil / empty, one EndorsementRequest; " +
 			"between the judged calls: calls that fail at each place the repository can give up (metadata not found, descriptor, section validation, overlap after earlier regions were built, TD-HOB too small after all regions were built, unaligned base and EXTEND-flagged temporary memory after records were hashed, unknown shape after earlier rows) incl. in the caller's own buffer, the caller writing over generated results it got (TD-HOB and temporary-memory buffers, region structs, per-shape options, rows), two tdx.Measurement values fed in turn, early accept without measure-all (observed only); " +
 			"(capacity) 2..84 sections and up to 1368 banks so that the TD-HOB section is exactly full / has one or two descriptors to spare / gets one too many first (TD-HOB of 1-4 and 6-30 pages; descriptor counts around 84, 169, 254, 340, 256 and 65536/48); " +
-			"(concurrent-with-failing) 4-12 goroutines, failing calls of the same kinds among the good ones. " +
+			"(concurrent-with-failing) 4-12 goroutines, failing calls of the same kinds among the good ones; " +
+			"(magnitude) TD-HOB + temporary memory adding up to exactly the 64 MiB the repository allows / one page less / a few pages less / half of it / around 16 MiB (65536 MR.EXTEND chunks in one section) / 1 MiB..64 MiB, cut into 1-6 sections in every way (TD-HOB alone, one large section, exact halves, equal parts, single pages plus the rest) declared in any order between the firmware volumes of an 8 KiB..2 MiB image, " +
+			"empty temporary-memory sections after the section that completes the total, first a call for a layout past the bound (one page, one section, 64 MiB more; counted, not judged), the three modes and the default / one-shape endorsement rows. " +
 			"Oracle: for a model-valid image/configuration tdx.MRTD must return the model's SHA-384 record stream digest; regions returned by ovmf.Extract* must be the declared sections in declared order with the image bytes / the model's TD-HOB (decoded by an independent HOB reader: hand-off table, one system-memory descriptor per section, unaccepted = RAM minus sections ascending with the early-accept rule, end marker, zero padding); " +
 			"shape bank lists must equal the model's table; every UnsignedTDX row must equal the model for its shape/mode; the grid's unaccepted descriptors must equal a per-page characteristic-function sweep. " +
 			"a result that equalled the model when it was returned must still do so (TD-HOB bytes, digest of its regions under the model's record stream) after later calls, and every concurrent call must return the model's value. " +
@@ -53,6 +55,7 @@ func init() {
 			"unaccepted memory is described bank by bank: adjacent banks are not merged (NUMA nodes stay separate descriptors)",
 			"model-valid = signature/version/length, types 0..3, exactly one TD-HOB, >=1 BFV, FV data inside the image with data size = memory size and sizes adding up to the image size, page-aligned non-wrapping pairwise-disjoint memory ranges that are non-empty except for temporary memory (an empty temporary-memory section contributes its length-0 descriptor in declared order, no records, and does not take part in RAM-minus-sections), TD-HOB section large enough for its list; anything else carries no verdict here (C08)",
 			"temporary-memory sections flagged EXTEND have no contents defined by the property: in default mode their MRTD is counted, not judged (legacy modes measure zeros like every other temporary memory)",
+			"valid metadata declares at most 64 MiB of TD-HOB plus temporary memory (the repository's documented resource bound, DESIGN 8.2 F08: '<= 64 MiB'; its validation refuses sizes 'larger than 0x4000000 bytes'): a total of exactly 64 MiB is judged like any other layout, a larger one is counted, not judged (C08)",
 			"machine shapes: 4 GiB per vCPU, 3 GiB below the hole, 2 MiB firmware window below 4 GiB, NUMA nodes of 176 GiB above 4 GiB",
 		},
 		ShardsQuick: 8, ShardsThor: 16, TimeoutS: 600, TimeoutThor: 3000, UlimitVKB: 4 << 20, Run: run,
@@ -296,6 +299,7 @@ type runner struct {
 	zeroBeforeHOB int
 	concOK        int
 	aud           audit
+	mag           magStats
 }
 
 func witness(fw []byte, sp any, banks []tdxref.Range, m tdxref.Mode, more map[string]any) map[string]any {
@@ -1024,7 +1028,7 @@ func sameRanges(a, b []tdxref.Range) bool {
 }
 
 func run(c *core.Ctx) {
-	r := &runner{c: c, equalByMode: map[tdxref.Mode]int{}, shapesSeen: map[string]bool{}, aud: newAudit()}
+	r := &runner{c: c, equalByMode: map[tdxref.Mode]int{}, shapesSeen: map[string]bool{}, aud: newAudit(), mag: newMagStats()}
 	go r.brk.watch(c)
 	nShapes := c.N(120, 1500)
 	nLayout := c.N(2400, 28000)
@@ -1036,8 +1040,9 @@ func run(c *core.Ctx) {
 	nSeq := c.N(200, 2400)
 	nFit := c.N(96, 1200)
 	nCF := c.N(40, 480)
+	nMag := c.N(48, 576) // multiples of 16: every stratum of the family in every run
 	gridRan := false
-	for i := 0; i < total+nSeq+nFit+nCF; i++ {
+	for i := 0; i < total+nSeq+nFit+nCF+nMag; i++ {
 		if !c.Mine(i) {
 			continue
 		}
@@ -1053,6 +1058,8 @@ func run(c *core.Ctx) {
 			r.caseShapes(i)
 		case j < nShapes+nLayout:
 			r.caseLayout(i)
+		case i >= total+nSeq+nFit+nCF:
+			r.caseMagnitude(i, i-(total+nSeq+nFit+nCF))
 		case i >= total+nSeq+nFit:
 			r.caseConcFail(i)
 		case i >= total+nSeq:
@@ -1092,6 +1099,7 @@ func run(c *core.Ctx) {
 	c.Floor("zero-size-tempmem-before-tdhob-measured", r.zeroBeforeHOB > 0)
 	c.Floor("concurrent-calls-compared", r.concOK > 0)
 	r.auditSummary()
+	r.magnitudeSummary()
 	for _, sh := range tdxref.Shapes {
 		if r.shapesSeen[sh.Name] {
 			c.Count("shape-equal/"+sh.Name, 1)
